@@ -290,8 +290,18 @@ async fn restart_and_replay(script: &Script, expect_some: bool) -> Result<(Vec<S
     // ("Messaging failed because channel is closed"); that is infrastructure, not the property:
     // a start failure is retried on a fresh node, only a persistent one is reported.
     let mut last = String::new();
+    let mut silent: Option<(Vec<String>, bool)> = None;
     for attempt in 0..START_ATTEMPTS {
         match restart_and_replay_once(script, expect_some).await {
+            // A replay was expected, but the stream stayed completely silent (no operation, no
+            // ReplayEnded) for the whole wait or ended at once: on an overloaded machine that is
+            // what a node looks like whose replay task has not come up. Nothing was delivered or
+            // acknowledged, so the database is unchanged and the restart can simply be repeated
+            // (twice); a replay that is really lost stays lost and is reported.
+            Ok((replayed, ended)) if expect_some && replayed.is_empty() && !ended && attempt < 2 => {
+                silent = Some((replayed, ended));
+                continue;
+            }
             Ok(r) => return Ok(r),
             Err(e) if e.starts_with("START:") => {
                 last = e;
@@ -300,7 +310,10 @@ async fn restart_and_replay(script: &Script, expect_some: bool) -> Result<(Vec<S
             Err(e) => return Err(e),
         }
     }
-    Err(last)
+    match silent {
+        Some(r) if last.is_empty() => Ok(r),
+        _ => Err(last),
+    }
 }
 
 /// How often a node start (spawn + `stream_from`) is attempted before the failure is reported.
